@@ -151,7 +151,7 @@ Print Assumptions C05_read_digest_linear.
 Theorem C05_decompress_loop_terminates :
   forall (stage_st : Type) (dstep : stage_st -> bytes -> Z -> stage_st * bytes)
          (st : Decomp.dstate stage_st) (size mb : Z) (sched : list nat) (fuel : nat),
-    18 * (Z.max size 0 + Decomp.zlen (Decomp.fp_rest st)) + 17 < Z.of_nat fuel ->
+    18 * (Z.max size 0 + Decomp.zlen (Decomp.fp_rest st) + Decomp.budget st) + 17 < Z.of_nat fuel ->
     worker_guarded dstep fuel st size mb 0 sched <> Err EFuel.
 Proof. exact worker_guarded_rounds. Qed.
 Print Assumptions C05_decompress_loop_terminates.
@@ -170,7 +170,7 @@ Print Assumptions C05_decompress_loop_terminates_from.
 Theorem C05_encoded_header_loop_terminates :
   forall (stage_st : Type) (dstep : stage_st -> bytes -> Z -> stage_st * bytes)
          (st : Decomp.dstate stage_st) (usize : Z) (sched : list nat) (fuel : nat),
-    18 * (Z.max usize 0 + Decomp.zlen (Decomp.fp_rest st)) + 17 < Z.of_nat fuel ->
+    18 * (Z.max usize 0 + Decomp.zlen (Decomp.fp_rest st) + Decomp.budget st) + 17 < Z.of_nat fuel ->
     header_guarded dstep fuel st usize [] 0 sched <> Err EFuel.
 Proof. exact header_guarded_rounds. Qed.
 Print Assumptions C05_encoded_header_loop_terminates.
